@@ -144,7 +144,8 @@ class SimHarness(HarnessBase):
             for op in schedule:
                 if op[0] in ('run', 'run_stop', 'run_nc'):
                     K = op[1]
-                    # ('run', K[, unit of dt[, factor on dt[, unit of the simulation time]]])
+                    # ('run', K[, unit of dt[, factor on dt[, unit of the simulation time[, (unit dt was built in, unit T was built in)]]]])
+                    # - the last pair: the objects were converted IN PLACE to their final units before the call
                     plain = op[0] != 'run_stop'
                     unit = op[2] if (plain and len(op) > 2 and op[2]) else self.dt_unit
                     scale = op[3] if (plain and len(op) > 3) else 1
@@ -152,11 +153,20 @@ class SimHarness(HarnessBase):
                     dts = dt * scale if scale != 1 else dt
                     f_u = float(si.SI['Time'][unit])
                     dtq = gu.TimeInterval(dts / f_u if unit != 'sec' else dts, unit)
-                    if t_unit == unit:
+                    pre = op[5] if (plain and len(op) > 5) else (None, None)
+                    if pre[0]:
+                        # the dt object was built in another unit and converted in place before the call
+                        f_p = float(si.SI['Time'][pre[0]])
+                        dtq = gu.TimeInterval(dts / f_p if pre[0] != 'sec' else dts, pre[0])
+                        dtq.to(unit, inplace=True)
+                    if t_unit == unit and not pre[1]:
                         Tq = dtq * K
                     else:
-                        f_t = float(si.SI['Time'][t_unit])
-                        Tq = gu.TimeInterval(dts * K / f_t if t_unit != 'sec' else dts * K, t_unit)
+                        u0 = pre[1] or t_unit
+                        f_t = float(si.SI['Time'][u0])
+                        Tq = gu.TimeInterval(dts * K / f_t if u0 != 'sec' else dts * K, u0)
+                        if pre[1]:
+                            Tq.to(t_unit, inplace=True)
                     stop = None
                     if op[0] == 'run_stop':
                         # the same StopCondition object serves every run of the schedule that names the same condition
@@ -178,17 +188,15 @@ class SimHarness(HarnessBase):
                     rec['load_calls'], rec['duty'], rec['runs'] = [], [], []
                 elif op[0] == 'newsolver':
                     solver = Solver(powertrain=pt)
-                elif op[0] == 'reinit':
-                    self._set_init(gu, last, th0, om0)
-                    M.motor.pwm = rec['pwm_before']
-                elif op[0] == 'reinit_state':
-                    # only what gearpy's documentation calls the initial conditions: position and speed of the last
-                    # element (sound only when the control's first duty cycle equals the motor's duty cycle before the run)
+                elif op[0] == 'setpwm':
+                    M.motor.pwm = op[1]         # the user sets the duty cycle between two runs
+                elif op[0] in ('reinit', 'reinit_state'):
+                    # what gearpy's documentation calls the initial conditions: position and speed of the last element.
+                    # Everything else (the motor's duty cycle included) is reset()'s business.
                     self._set_init(gu, last, th0, om0)
                 elif op[0] == 'reinit_other':
                     # after a reset the user starts a NEW simulation from other initial conditions
                     self._set_init(gu, last, env.real('th0b'), env.real('om0b'))
-                    M.motor.pwm = rec['pwm_before']
         except (ValueError, TypeError, ZeroDivisionError, KeyError, AttributeError, IndexError, TooManyInstants) as e:
             rec['raised'] = type(e).__name__
             rec['raised_msg'] = str(e)[:120]
